@@ -120,7 +120,7 @@ impl AotCWhole {
             0 => false,
             2 => {
                 let start = std::time::Instant::now();
-                while self.cell.get().is_none() && start.elapsed().as_secs() < 120 {
+                while self.cell.get().is_none() && start.elapsed().as_secs() < 30 {
                     std::thread::sleep(std::time::Duration::from_millis(2));
                 }
                 true
